@@ -279,3 +279,58 @@ pub fn big_reader(variant: u8, pattern: &[u8], seed: u64, total: u64) -> (i32, V
         "samples": [hist], "violation_count": n, "violations": viol, "wall_s": t0.elapsed().as_secs_f64()});
     (if n > 0 { 1 } else { 0 }, rep)
 }
+
+/// C03 side job: `total` bytes (> 1 GiB) of a periodic pattern fed (a) in ONE update() call and (b) in seeded pieces of at
+/// most 192 MiB; both generators must be observationally equal (processed_len, finalize under every option setting).
+pub fn c03_big(variant: u8, pattern: &[u8], seed: u64, total: u64) -> (i32, Value) {
+    let t0 = std::time::Instant::now();
+    let buf: Vec<u8> = (0..total as usize).map(|i| pattern[i % pattern.len()]).collect();
+    let res = crate::framework::guarded(|| {
+        with_kind!(variant, K => {
+            let mut one = <K as Kind>::new_gen();
+            one.update(&buf);
+            let mut many = <K as Kind>::new_gen();
+            let mut r = Rng::new(seed);
+            let mut pos = 0usize;
+            let mut pieces = 0u64;
+            while pos < buf.len() {
+                let n = (r.range(1, 192 << 20) as usize).min(buf.len() - pos);
+                many.update(&buf[pos..pos + n]);
+                pos += n;
+                pieces += 1;
+            }
+            let mut diff = None;
+            if one.processed_len() != many.processed_len() {
+                diff = Some(format!("processed_len: one piece {:?}, {pieces} pieces {:?}", one.processed_len(), many.processed_len()));
+            }
+            for o in 0..32u8 {
+                let a = crate::kinds::render(&one.finalize_with_options(&crate::kinds::options(o)));
+                let b = crate::kinds::render(&many.finalize_with_options(&crate::kinds::options(o)));
+                if a != b && diff.is_none() {
+                    diff = Some(format!("options#{o}: one piece gives {a}, {pieces} pieces give {b}"));
+                }
+            }
+            (diff, pieces)
+        })
+    });
+    let hist = json!({"variant_id": variant, "pattern": crate::data::hex(pattern), "seed": seed.to_string(), "total": total.to_string()});
+    let mut viol = Vec::new();
+    let mut pieces = 0;
+    match res {
+        Err(p) => viol.push(json!({"index": seed, "class": format!("panic:{}", crate::framework::panic_class(&p)), "detail": format!("panic: {p}"), "history": hist, "engine": "bigstream"})),
+        Ok((Some(d), n)) => {
+            pieces = n;
+            viol.push(json!({"index": seed, "class": "chunked-differs-from-one-shot", "detail": format!("{total} bytes: {d}"), "history": hist, "engine": "bigstream"}))
+        }
+        Ok((None, n)) => pieces = n,
+    }
+    for x in viol.iter_mut() {
+        x["argv"] = json!(["c03big", "--variant", variant.to_string(), "--pattern", crate::data::hex(pattern), "--seed", seed.to_string(), "--total", total.to_string()]);
+    }
+    let n = viol.len();
+    let rep = json!({"scenario": "c03big", "property": "C03", "seed": seed.to_string(), "evaluations": 1, "distinct": 1, "distinct_nontrivial": 1,
+        "rule": "one real input larger than 1 GiB: a single update() call versus the same bytes in seeded pieces of up to 192 MiB",
+        "counters": {"sim_bytes_fed": total * 2, "pieces": pieces, "probe.single_piece_gt_1GiB": (total > (1 << 30)) as u64}, "samples": [hist],
+        "violation_count": n, "violations": viol, "wall_s": t0.elapsed().as_secs_f64()});
+    (if n > 0 { 1 } else { 0 }, rep)
+}
